@@ -19,6 +19,9 @@ func TestPropGated(t *testing.T) { hx.Check(t, "gated", GenGated, ExecGated) }
 func TestPropPip(t *testing.T)      { hx.Check(t, "pip-holders", GenPip, ExecPipHolders) }
 func TestPropPipGated(t *testing.T) { hx.Check(t, "pip-gated", GenGated, ExecPipGated) }
 
+// TestPropWaitLock: pipeline tasks with a lock map AND a wait list (c15wait.go).
+func TestPropWaitLock(t *testing.T) { hx.Check(t, "pip-waitlock", GenWaitLock, ExecWaitLock) }
+
 // Argument layer (c15cli.go): holders are `pip:run --rlock=… --wlock=…` terminal sessions.
 func TestPropCli(t *testing.T)      { hx.Check(t, "cli-holders", GenCli, ExecCliHolders) }
 func TestPropCliGated(t *testing.T) { hx.Check(t, "cli-gated", GenCliGated, ExecCliGated) }
@@ -35,7 +38,7 @@ func TestEnum(t *testing.T) {
 func TestReplay(t *testing.T) {
 	hx.Replay(t, map[string]func(json.RawMessage) (hx.Verdict, error){
 		"holders": hx.Exec(Exec), "": hx.Exec(Exec), "gated": hx.Exec(ExecGated),
-		"pip-holders": hx.Exec(ExecPipHolders), "pip-gated": hx.Exec(ExecPipGated),
+		"pip-holders": hx.Exec(ExecPipHolders), "pip-gated": hx.Exec(ExecPipGated), "pip-waitlock": hx.Exec(ExecWaitLock),
 		"cli-holders": hx.Exec(ExecCliHolders), "cli-gated": hx.Exec(ExecCliGated), "cli-map": hx.Exec(ExecCliMap),
 	})
 }
